@@ -609,7 +609,9 @@ class Interp:
             return out
         if name in ("rs_perm", "rs_perm_nop"):
             n = p["n"]
-            B = fd_perm(self.ctx, f"[{kid}]", n)
+            # choice(key, a, replace=False) without p IS permutation(key, a) in JAX (same stream); with p it is a different function
+            # of the key (Gumbel top-k): its draw is an independent symbol family
+            B = fd_perm(self.ctx, f"[{kid}]" + ("p" if name == "rs_perm" else ""), n)
             pi = [pick(B[i], [const(k, "Int") for k in range(n)]) for i in range(n)]
             if name == "rs_perm":
                 pr = ins[1]
